@@ -13,12 +13,24 @@ LEVEL_TEXT = {
  "C13": ("model_checking", "Inductive step from the state after an arbitrary (symbolic, unbounded) number of requests + periodicity lemma + bounded model checking of every operation string through the public API with symbolic start values.", "§7 C13"),
 }
 LEVEL_TEXT.update({
+ "C01": ("model_checking", "Bounded model checking of generator output + real EoWriter/EoReader per corpus class: structure value-forked, all leaf values symbolic over their full range; z3 decides field-by-field equality after serialize->deserialize, exact consumption and byte_size. The programs quantifier is a fixed, enumerated spec corpus (stated as a bound).", "§7 C01, §5"),
+ "C02": ("translation_validation", "Per corpus program the generator's output is validated against an independent reading of the same XML (O-xml): z3 decides byte-for-byte equality of the generated serializer's output and the reference wire image for all objects within the value bounds, on the core tree and on five twin trees that spell one boolean default explicitly.", "§7 C02, §5, §6"),
+ "C03": ("model_checking", "Per corpus class and input length n all 256^n byte strings are one symbolic input; the generated deserializer (real EoReader) is compared field by field with O-xml's reading rules over the independent O-reader model; only the predicted ValueError may escape.", "§7 C03"),
+ "C15": ("fault_enumeration", "Bounded model checking with injected faults: every call index of a failing writer/reader is enumerated by value-forking, objects range over valid and single-violation values, byte strings are symbolic, entry mode symbolic; z3 decides mode-after == mode-before on every returning and raising path.", "§7 C15"),
+ "C16": ("model_checking", "Every single declaration-violating change (site value-forked over all fields, depths, elements and cases; over-limit integers symbolic and unbounded) applied to a symbolic valid object; z3 decides that the generated serializer cannot return normally.", "§7 C16"),
+ "C19": ("model_checking", "Symbolic field values: double serialization identical for constructed and deserialized instances, unaffected by caller-side mutation of constructor arguments (heap aliasing modelled); AttributeError on assignment decided by executing setattr in the interpreter's descriptor semantics on every explored path and confirmed natively.", "§7 C19"),
  "C04": ("model_checking", "Bounded model checking of the real EoWriter and EoReader together: write-op kinds are enumerated, every value is symbolic over its whole range (integers, arbitrary code points, raw bytes); z3 decides that each read returns the written value (strings: their cp1252 image) and that the output is consumed exactly.", "§7 C04"),
  "C05": ("model_checking", "One operation from every reachable reader state (reached through the public API by a canonical prefix with symbolic parameters) over symbolic data, compared by z3 with an independent functional model of chunked reading; plus bounded model checking of operation sequences from the constructor.", "§7 C05"),
  "C06": ("model_checking", "Bounded model checking of sanitising writer + chunked reader: chunk shapes enumerated, field values and read plans symbolic.", "§7 C06"),
  "C09": ("model_checking", "Inductive step over an arbitrary writer pre-state (symbolic prefix and mode): one add_* call with symbolic arguments (unbounded integers, arbitrary strings, symbolic length/padded) against a reference image written from the protocol documentation.", "§7 C09"),
 })
 NOTE = {
+ "C01": "Trusted: z3, vsx interpreter, cp1252 table stub, the IntEnum/ProtocolEnumMeta model (C14 is outside this technique), the corpus as the only programs explored, the stated validity predicate.",
+ "C02": "Trusted: O-xml (props/oxml.py, harness/vh_refsem.py, harness/vh_wire.py) as the reading of eo-protocol semantics; z3; vsx; enum model; corpus as the programs explored.",
+ "C03": "Trusted: O-xml reading rules + O-reader model; z3; vsx; enum model. Decoded loop counts are explored up to the stated cap; inputs longer than the bound are outside.",
+ "C15": "Trusted: z3, vsx (try/finally, exception propagation, property setters); faults are exceptions raised by public reader/writer methods.",
+ "C16": "Trusted: z3, vsx, O-xml's classification of the mutated object as invalid (checked as a second obligation).",
+ "C19": "Trusted: vsx's model of Python descriptors/properties and of list/tuple aliasing (each path's model is replayed natively with the same harness).",
  "C04": "Trusted: z3, vsx interpreter, the cp1252 table stub (regenerated from the codec and compared with the repo interpreter on every run). Sequences longer than the bound are outside the solver-checked claim.",
  "C05": "Trusted: z3, vsx interpreter, the O-reader model as the reading of the documented chunked-reading rules; the canonical-prefix reachability argument (DESIGN.md).",
  "C06": "Trusted: z3, vsx interpreter, cp1252 table stub.",
@@ -31,6 +43,12 @@ NOTE = {
  "C13": "Trusted: z3, vsx interpreter's object model (attributes, properties, inheritance).",
 }
 TECH = {
+ "C01": "bounded symbolic execution of generated code + real reader/writer, z3; corpus enumerated",
+ "C02": "translation validation: generated serializer vs independent XML semantics (O-xml), equivalence decided by z3",
+ "C03": "bounded symbolic execution over all byte strings per length, differential against O-xml/O-reader, z3",
+ "C15": "bounded symbolic execution with injected faults (call index value-forked), z3",
+ "C16": "bounded symbolic execution over single-violation objects, z3",
+ "C19": "symbolic execution with modelled heap aliasing + descriptor semantics, z3, native confirmation",
  "C04": "bounded symbolic execution of writer+reader + z3, op kinds enumerated, values symbolic",
  "C05": "inductive step from canonical reachable states + BMC, differential against O-reader model, z3",
  "C06": "bounded symbolic execution of sanitising writer + chunked reader + z3, read plans value-forked",
